@@ -124,7 +124,33 @@ func (s *sink) ptrID(prefix string, v any) string {
 	return id
 }
 
-// flatten turns a value into leaf-path -> scalar string. Structs are reported as "<struct:T>" leaves.
+type leaf struct {
+	P []string `json:"p"`
+	V string   `json:"v"`
+}
+
+// leaves flattens a value into a list of (path, scalar string) pairs, sorted by path.
+func leaves(v any) []leaf {
+	m := map[string]string{}
+	flatten("", v, m, 0)
+	keys := make([]string, 0, len(m))
+	for k := range m {
+		keys = append(keys, k)
+	}
+	sort.Strings(keys)
+	out := make([]leaf, 0, len(keys))
+	for _, k := range keys {
+		p := []string{}
+		if k != "" {
+			p = strings.Split(k, "\x00")
+		}
+		out = append(out, leaf{P: p, V: m[k]})
+	}
+	return out
+}
+
+// flatten turns a value into leaf-path -> scalar string (path segments joined by NUL). Structs are reported as
+// "<struct:T>" leaves, nil maps/slices as "null".
 func flatten(prefix string, v any, out map[string]string, depth int) {
 	if len(out) > 400 {
 		return
@@ -140,6 +166,10 @@ func flatten(prefix string, v any, out map[string]string, depth int) {
 	rv := reflect.ValueOf(v)
 	switch rv.Kind() {
 	case reflect.Map:
+		if rv.IsNil() {
+			out[prefix] = "null"
+			return
+		}
 		if rv.Len() == 0 {
 			out[prefix] = "{}"
 			return
@@ -148,11 +178,15 @@ func flatten(prefix string, v any, out map[string]string, depth int) {
 			key := fmt.Sprint(k.Interface())
 			p := key
 			if prefix != "" {
-				p = prefix + "." + key
+				p = prefix + "\x00" + key
 			}
 			flatten(p, rv.MapIndex(k).Interface(), out, depth+1)
 		}
 	case reflect.Slice, reflect.Array:
+		if rv.Kind() == reflect.Slice && rv.IsNil() {
+			out[prefix] = "null"
+			return
+		}
 		if rv.Len() == 0 {
 			out[prefix] = "[]"
 			return
@@ -160,7 +194,7 @@ func flatten(prefix string, v any, out map[string]string, depth int) {
 		for i := 0; i < rv.Len(); i++ {
 			p := strconv.Itoa(i)
 			if prefix != "" {
-				p = prefix + "." + p
+				p = prefix + "\x00" + p
 			}
 			flatten(p, rv.Index(i).Interface(), out, depth+1)
 		}
@@ -196,7 +230,6 @@ func (s *sink) convert(key string, v any) any {
 	case "obj":
 		return s.ptrID("o", v)
 	case "data":
-		out := map[string]string{}
 		var root any = v
 		if p, ok := v.(*any); ok {
 			if p == nil {
@@ -204,8 +237,7 @@ func (s *sink) convert(key string, v any) any {
 			}
 			root = *p
 		}
-		flatten("", root, out, 0)
-		return out
+		return leaves(root)
 	}
 	switch t := v.(type) {
 	case nil:
@@ -225,6 +257,8 @@ func (s *sink) convert(key string, v any) any {
 		}
 		return msg
 	case string, bool, int, int64, float64:
+		return t
+	case []leaf:
 		return t
 	}
 	rv := reflect.ValueOf(v)
